@@ -10,8 +10,8 @@ from envlib import Adapter, Config, diff_json, tree_index
 class A(Adapter):
     name = "sokoban"
     lean = "sokoban"
-    serves = {"C05", "C07", "C09", "C10", "C11", "C12"}
-    ops = ("state", "step", "judge", "instance")
+    serves = {"C01", "C05", "C07", "C09", "C10", "C11", "C12"}
+    ops = ("state", "step", "judge", "instance", "bounds")
     has_mask = False
     terminate_on_invalid = False
     max_steps = 60
